@@ -4,7 +4,13 @@ Spec: spec/Geometry.tla over spec/Elf.tla.  G: geometry grid images (section_in_
 the transcription of binutils' strict rule), PT_LOAD layouts x address ranges (address_offsets),
 string tables around the 64-byte read chunk (get_string), data paths raw / NOBITS / compressed
 with zlib streams written by the specification (plus harness-side recompression at other zlib
-levels into the same slot), Segment.data and the interpreter string."""
+levels into the same slot), Segment.data and the interpreter string; client sessions on ONE long-lived
+ELFFile (address_offsets / iter_segments generators started, advanced, drained, abandoned or kept open,
+interleaved with get_segment, Segment.data, section_in_segment, Section.data of raw / NOBITS / compressed
+sections, get_string and the interpreter path, on held or freshly fetched objects): every session of a
+bounded length over three alphabets exhaustively, long ones over the whole alphabet along the specification's
+pseudo-random schedules; the expected answer
+of every call is emitted by the specification (the declarative view, whatever preceded the call)."""
 import io
 import zlib
 
@@ -20,7 +26,10 @@ def check(run):
     run.rule = ('cases = images of the Geometry writers: 2304 grid images (30 sections x 4 segments each: every segment type x TLS/ALLOC/NOBITS flags x '
                 'file/address displacement -1..+4 x sizes 0..3 x filesz 0..2 x memsz 0..3), 12 PT_LOAD layout images x 115 (start,size) ranges, '
                 '16 string-table images x ~50 offsets, 4 images with a 65700-byte string (more than 1024 read chunks) x 15 offsets, ~300 data-path images; non-trivial = the expectation is not the empty/false answer; '
-                'distinct by image bytes and query')
+                'distinct by image bytes and query; client sessions on one long-lived ELFFile (one case per session, every call compared): all '
+                'sessions of 4 calls (thorough 5) over generator start/adv/drain/drop + Segment.data + get_string, of 3 (4) calls over data() of '
+                'raw/compressed/badly sized sections + Segment.data + get_string, of 3 (4) get_string calls, and 500 (3000) scheduled sessions of '
+                '14 (24) calls over the whole alphabet')
     run.assumptions += ['.tbss special sizing and zero-size sections in PT_DYNAMIC/PT_NOTE are outside the clause groups the property names '
                         '(geometries where they matter are emitted as "not asserted")',
                         'zlib/Adler-32: stored-block streams are written by the specification; other compression levels come from '
@@ -73,6 +82,7 @@ def check(run):
                     _data_case(run, ef, case, data, brief, ELFCompressionError)
         except Exception as ex:
             run.mismatch('exception', mode, brief, 'no exception', 'exc:%s:%s' % (type(ex).__name__, str(ex)[:120]))
+    _sessions(run, ELFFile, ELFCompressionError)
     run.extra['inseg_pairs'] = pairs
     run.extra['inseg_pairs_asserted'] = asserted
     run.validated = run.evaluations
@@ -148,3 +158,119 @@ def _data_case(run, ef, case, data, brief, ELFCompressionError):
             buf[slot['off']:slot['off'] + len(z)] = z
             ef2 = ELFFile(io.BytesIO(bytes(buf)))
             observe(ef2.get_section(case['secidx']), '.level%d.w%d' % (level, wbits))
+
+
+# ---------------------------------------------------------------------------------------------------------------
+# client sessions: one ELFFile per session, the calls of the session in order, every answer compared with the one
+# the specification logged for that call
+_PT = {0: None, 1: 'PT_LOAD', 2: 'PT_DYNAMIC', 3: 'PT_INTERP', 4: 'PT_NOTE', 6: 'PT_PHDR', 7: 'PT_TLS'}       # gABI names (API vocabulary)
+
+
+def _sessions(run, ELFFile, ELFCompressionError):
+    quick = run.tier == 'quick'
+    outs = [run.tlc('Geometry', 'Geometry_sess_quick' if quick else 'Geometry_sess_thorough', workers=min(8, core.NPROC)).out]
+    worlds, sessions = {}, []
+    for out in outs:
+        for case in run.cases(out):
+            if case['mode'] == 'world':
+                worlds[tuple(case['w'])] = dict(case, data=concretise(case['chunks']))
+            elif case['mode'] == 'sess':
+                sessions.append(case)
+    if not worlds or not sessions:
+        raise core.MachineryError('Geometry sessions: no worlds / sessions emitted')
+    per = {}
+    for sess in sessions:
+        w = worlds.get(tuple(sess['w']))
+        if w is None:
+            raise core.MachineryError('Geometry sessions: session on an unknown world %r' % (sess['w'],))
+        per[sess['disc']] = per.get(sess['disc'], 0) + 1
+        letters = [[c['op'], c['a'], c['b']] for c in sess['calls']]
+        run.count(core.digest(['sess', sess['w'], sess['held'], letters]), nontrivial=any(c['ans'] for c in sess['calls']))
+        if sess['disc'] == 'sessR' and per['sessR'] == 7:          # one real session among the evidence samples
+            run.samples[3:] = [{'session': [l + [c['ans'] if len(c['ans']) < 8 else len(c['ans'])] for l, c in zip(letters, sess['calls'])],
+                                'world': sess['w'], 'held': sess['held']}]
+        try:
+            with core.guard(60):
+                _replay_session(run, ELFFile, ELFCompressionError, w, sess, letters)
+        except Exception as ex:
+            run.mismatch('session.exception', sess['disc'], {'w': sess['w'], 'held': sess['held'], 'calls': letters,
+                                                               'bytes_b64': core.b64(w['data'])},
+                         'no exception', 'exc:%s:%s' % (type(ex).__name__, str(ex)[:120]))
+    run.extra['sessions'] = per
+
+
+def _replay_session(run, ELFFile, ELFCompressionError, world, sess, letters):
+    ef = ELFFile(io.BytesIO(world['data']))
+    held = bool(sess['held'])
+    segtab = [tuple(h[1:]) for h in world['segs']]
+    secs, segs, gens = {}, {}, {}
+
+    def sec(k):
+        if not held:
+            return ef.get_section(world['secidx'][k - 1])
+        if k not in secs:
+            secs[k] = ef.get_section(world['secidx'][k - 1])
+        return secs[k]
+
+    def seg(j):
+        if not held:
+            return ef.get_segment(j - 1)
+        if j not in segs:
+            segs[j] = ef.get_segment(j - 1)
+        return segs[j]
+
+    def value(kind, v):          # what a generator yielded, in the specification's terms
+        if kind == 'addr':
+            return v
+        t = (v['p_offset'], v['p_vaddr'], v['p_filesz'], v['p_memsz'])
+        return segtab.index(t) + 1 if t in segtab else -1
+
+    for i, c in enumerate(sess['calls']):
+        op, a, b, want = c['op'], c['a'], c['b'], c['ans']
+        if op == 'addr':
+            gens[len(gens) + 1] = ('addr', ef.address_offsets(a, b))
+            got = []
+        elif op == 'segs':
+            gens[len(gens) + 1] = ('segs', ef.iter_segments(type=_PT[a]) if a else ef.iter_segments())
+            got = []
+        elif op == 'adv':
+            kind, g = gens[a]
+            try:
+                got = [value(kind, next(g))]
+            except StopIteration:
+                got = []
+        elif op == 'drain':
+            kind, g = gens[a]
+            got = [value(kind, v) for v in g]
+        elif op == 'drop':
+            gens[a][1].close()
+            gens[a] = None
+            got = []
+        elif op == 'nseg':
+            got = [ef.num_segments()]
+        elif op == 'seg':
+            h = seg(a)
+            got = [h['p_type'], h['p_offset'], h['p_vaddr'], h['p_filesz'], h['p_memsz']]
+            want = [_PT.get(want[0], want[0])] + want[1:]
+        elif op == 'segdata':
+            got = list(seg(a).data())
+        elif op == 'inseg':
+            got = [int(bool(seg(a).section_in_segment(sec(b))))]
+            if want == [2]:           # outside the clause groups the property names: asked, not asserted
+                got = want
+        elif op == 'secdata':
+            try:
+                got = list(sec(a).data())
+            except ELFCompressionError:
+                got = [-1]
+        elif op == 'str':
+            got = list(sec(world['strsec']).get_string(a).encode('utf-8'))
+        elif op == 'interp':
+            got = list(seg(a).get_interp_name().encode('utf-8'))
+        else:
+            raise core.MachineryError('Geometry sessions: unknown call %r' % (op,))
+        if got != want:
+            run.mismatch('session.' + op, sess['disc'],
+                         {'w': sess['w'], 'held': sess['held'], 'calls': letters[:i + 1], 'at': i, 'bytes_b64': core.b64(world['data'])},
+                         want, got)
+            return
